@@ -8,6 +8,10 @@
  * state and the extra oracle (hash-function call log for "incr").
  */
 #include "vrt.h"
+/* Only resize and shrink_to_fit need memory (and have a documented way to fail).  In every second case everything else -- insert,
+ * find, erase, rehash, enumeration, swap, clear -- runs while the allocator refuses every request. */
+static int nomem_case;
+#define MAY_ALLOC(stmt) do { if (nomem_case) vrt_fp_disarm(); stmt; if (nomem_case) vrt_fp_arm(NULL, 0, 1); } while (0)
 #include "explore.h"
 #include "cstl/hash.h"
 #include <string.h>
@@ -419,7 +423,7 @@ static int st_apply(uint32_t op, int audit)
         if (mode == M_INCR && !ready[t] && f < 0) return 0;    /* unlogged default function */
         vrt_state(was_pending ? "while-pending" : ready[t] ? "idle" : "first");
         VRT_OP3("hash.resize", "t%ld n=%ld f=%ld", t, n, f);
-        cstl_hash_resize(&T[t], n, f < 0 ? NULL : tramp[f]);
+        MAY_ALLOC(cstl_hash_resize(&T[t], n, f < 0 ? NULL : tramp[f]));
         if (a == 0xfff) {
             /* cannot be satisfied: nothing visible may change, now or at any later resize */
             VRT_COUNT("op.resize.unsatisfiable");
@@ -483,7 +487,7 @@ static int st_apply(uint32_t op, int audit)
         if (!ready[t]) return 0;
         vrt_state(table_pending(t) ? "pending" : "idle");
         VRT_OP1("hash.shrink_to_fit", "t%ld", t);
-        cstl_hash_shrink_to_fit(&T[t]);
+        MAY_ALLOC(cstl_hash_shrink_to_fit(&T[t]));
         check_size(t, "hash.size.after-shrink");
         VRT_COUNT("op.shrink_to_fit");
         break;
@@ -947,7 +951,7 @@ static void run_bigtable(uint64_t which)
     memset(E, 0, sizeof(*E) * BIGN);
     cstl_hash_init(&H, offsetof(struct belem, n));
     VRT_OP0("hash.resize", "n=65536 f0 (first)");
-    cstl_hash_resize(&H, 65536, tr0);
+    MAY_ALLOC(cstl_hash_resize(&H, 65536, tr0));
     for (i = 0; i < BIGN; i++) { E[i].key = KX(i); cstl_hash_insert(&H, E[i].key, &E[i]); shadow[i] = (uint32_t)fam(0, E[i].key, 65536); }
     count = 65536;
     for (phase = 0; phase < 2; phase++) {
@@ -955,7 +959,7 @@ static void run_bigtable(uint64_t which)
         size_t op, nops;
         target = phase ? 40000 : 131072;
         VRT_OP2("hash.resize", "n=%ld f%ld (leaves a rehash pending over a big table)", target, fnew);
-        cstl_hash_resize(&H, target, tramp[fnew]);
+        MAY_ALLOC(cstl_hash_resize(&H, target, tramp[fnew]));
         if (cstl_hash_load(&H) != (float)BIGN / target) vrt_fail("hash.resize.load.big", "load %g after resize to %zu", (double)cstl_hash_load(&H), target);
         nops = count + 1;               /* after as many keyed calls as there were buckets it must be finished */
         for (op = 0; op < nops; op++) {
@@ -1046,13 +1050,13 @@ static void run_longchain(uint64_t which)
     memset(E, 0x5e, sizeof(*E) * LN);
     cstl_hash_init(&H, offsetof(struct lelem, n));
     VRT_OP1("hash.resize", "n=%ld f0 (first)", nb0);
-    cstl_hash_resize(&H, (size_t)nb0, tr0);
+    MAY_ALLOC(cstl_hash_resize(&H, (size_t)nb0, tr0));
     for (i = 0; i < LN; i++) { E[i].key = 2 * i + (i == LN - 1); cstl_hash_insert(&H, E[i].key, &E[i]); }
     for (step = 0; step < 4; step++) {
         const size_t n = (step & 1) ? (size_t)nb0 : (size_t)nb1;
         size_t k;
         VRT_OP2("hash.resize", "n=%ld f%ld over long chains", n, (step & 1) ? 0 : f1);
-        cstl_hash_resize(&H, n, tramp[(step & 1) ? 0 : f1]);
+        MAY_ALLOC(cstl_hash_resize(&H, n, tramp[(step & 1) ? 0 : f1]));
         /* keyed calls on behalf of a few keys, present and absent, while the rehash is pending */
         for (k = 0; k < 3; k++) {
             const size_t key = k == 0 ? E[LN - 1].key : k == 1 ? 1 : E[17 * (step + 1)].key;
@@ -1107,9 +1111,12 @@ static void run_case(uint64_t idx)
 {
     /* the few expensive fixed cases first, so that a run capped with --max-cases still has them */
     const uint64_t nfix = !under_memcheck() ? NBIGT + NLONG : 0;
+    nomem_case = (int)(idx & 1);
+    if (nomem_case) { vrt_fp_arm(NULL, 0, 1); VRT_COUNT("nomem.cases"); }
     if (idx < (uint64_t)nscopes) run_closure((int)idx);
     else if (idx < nscopes + nfix) { if (idx - nscopes < NBIGT) run_bigtable(idx - nscopes); else run_longchain(idx - nscopes - NBIGT); }
     else run_random(idx - nscopes - nfix);
+    vrt_fp_disarm(); nomem_case = 0;
 }
 static void winit(void)
 {
